@@ -29,6 +29,18 @@ each meets each flavour with both values; the random grammar draws such fields t
 Gen/FuncSyntaxArms.lean (go/extract/funcsyntaxarms.go, text/template/parse) holds both arms of every
 `if $useFunctionSyntaxForExecutionContext` of codegen/*.gotpl; function_arm_is_translation_of_method_arm proves
 that each function arm is its method arm with the receiver removed and `ec` passed second.
+
+Project layout and what gqlgen.yml leaves implicit (added for the miss C17-change6): `package:` omitted / given for
+exec, model and resolver x output directories whose base name is an identifier / upper case / has a hyphen / a dot /
+a leading digit / is a Go keyword x the directory absent / empty / holding only the schema or a README / holding a Go
+file of some package x exec and resolver layouts x shared, nested and sibling directories ("layout" projects c17l*,
+go/harness/c17/layouts.go, corpus/C17/layouts.txt): generated, type-checked, built, and the package clause of every
+generated file compared with Model/PkgName.lean. -mode pkgnames asks the real Check() of the three sections for the
+derived name on really created directories (all strings over a small alphabet, keywords, blanks, non-ASCII x 8
+directory states). Regenerated fact: Gen/PkgNameRules.lean (go/extract/pkgnamerules.go, go/ast) holds what each of
+NameForDir's four returns yields, SanitizePackageName's replaced class, repair guard and repair, and what each
+section's Check() assigns; sanitizePkg_valid / nameForDir_valid_when_derived / sectionPackage_valid
+(Props/C17Pkg.lean) prove that the derived name is a package name for EVERY directory name and state.
 """
 import json
 import os
@@ -167,8 +179,11 @@ def run(ctx):
         "type-reference model (Model/TypeRef.lean) covers leaf types (scalars / enums with a binding); pointer plumbing (&res, *v, IsTargetNilable) is transparent in the model and checked by the Go compiler in the sweep; null propagation out of [T!] and errors of bound functions are not modelled",
         "execution of bindings projects: resolvers are reflection-made (return a filled value / their argument / a field-wise copy of their input), the bound functions are exact round trips of a canonical text, so a response leaf shows which bound function was called and with which whole value",
     ]
-    ok_extract = ctx.extract("Keywords", "TypeRefRules", "FuncSyntaxArms")
-    proved = ok_extract and ctx.prove(props=["GqlgenVerif.Props.C17"])
+    ctx.assumptions += [
+        "derived package names (Model/PkgName.lean): the file system is an explicit input of the model (absent / entries with the package clause of each Go file); filepath.Abs / os.ReadDir / go/parser and Go's regexp class \\W are modelled, tied by -mode pkgnames on really created directories and by the package clauses of the generated layout projects",
+    ]
+    ok_extract = ctx.extract("Keywords", "TypeRefRules", "FuncSyntaxArms", "PkgNameRules")
+    proved = ok_extract and ctx.prove(props=["GqlgenVerif.Props.C17", "GqlgenVerif.Props.C17Pkg"])
     if ok_extract and not proved:
         ctx.cov["proof_failure"] = ctx.proof_failure
 
@@ -293,6 +308,9 @@ def run(ctx):
                                    "replay": desc + "; Model/TypeRef.lean says " + m}, no_failing_input=True)
     ctx.cov["typerefs"] = {"cases": len(trows), "divergences": tref_div, "spec_failures": len(tref_bad), "spec_failure_cases": tref_bad[:40]}
 
+    # ------------------------------------------------------------ derived package names: real Check() vs model
+    pkg_rows = run_pkgnames(ctx, have_model, branch, nontriv)
+
     # ------------------------------------------------------------ sweep: real generation of random + directed projects
     sweep = run_sweep(ctx, have_model, branch, nontriv)
     failed_inputs = sweep.pop("failed_inputs")
@@ -331,6 +349,31 @@ def run(ctx):
                         rep["replay"] = txt
                         ctx.violation(rep, no_failing_input=True)
                     found = True
+            # the regenerated NameForDir / SanitizePackageName: a directory name x state for which the MODEL over the
+            # regenerated definitions derives something that cannot stand in a package clause
+            derived = [r for r in pkg_rows if not state_has_clause(r[4])]
+            mouts = ctx.driver("c17", ["secpkg %s - %s %s" % (r[1], r[3], r[4]) for r in derived])
+            mver = ctx.driver("c17", ["chkpkg " + (m if re.fullmatch(r"[0-9a-f]+|-", m) else "-") for m in mouts])
+            seen_states = set()
+            lay_fail = next((f for f in failed_inputs if f["project"].startswith("c17l")), None)
+            for r, m, v in zip(derived, mouts, mver):
+                if v == "ok" or state_class(r[4]) in seen_states or len(seen_states) >= 3:
+                    continue
+                seen_states.add(state_class(r[4]))
+                name = unhex(r[3])
+                rep = {"kind": "proof", "failing": ctx.proof_failure, "section": r[1], "directory_name": name, "directory_state": describe_state(r[4]),
+                       "model_on_regenerated_rules": unhex(m), "implementation": unhex(r[5]) if not r[5].startswith(("ERR", "PANIC")) else r[5],
+                       "shape": {"stage": "derived-package-name", "class": "derived-name-is-not-a-package-name", "directory_state": state_class(r[4]),
+                                 "name_class": name_class(name)}}
+                txt = "%s section with `package:` omitted, output directory %r (%s): the regenerated NameForDir / SanitizePackageName derive %r (real Check(): %r), which cannot stand in a package clause (theorems of Props/C17Pkg.lean over Gen/PkgNameRules.lean)" % (
+                    r[1], name, describe_state(r[4]), unhex(m), rep["implementation"])
+                if lay_fail:
+                    rep["input"] = lay_fail["input"]
+                    txt += "; failing project %s (go/genout/c17/%s, files in `input`): %s" % (lay_fail["project"], lay_fail["project"], lay_fail["error"][:300])
+                rep["replay"] = txt
+                # the input is concrete when the real implementation derives the same unusable name
+                ctx.violation(rep, no_failing_input=(m != r[5]))
+                found = True
         if not found and not any(not nf for _, nf in ctx.violations):
             ctx.violation({"kind": "proof", "failing": ctx.proof_failure}, no_failing_input=True)
 
@@ -346,6 +389,126 @@ def run(ctx):
     })
 
 
+# ---------------------------------------------------------------- derived package names
+GO_KW = set("break default func interface select case defer go map struct chan else goto package switch const fallthrough if range type continue for import return var".split())
+
+
+def name_class(name):
+    if name in GO_KW:
+        return "keyword"
+    if name[:1].isdigit():
+        return "leading-digit"
+    if any(ord(c) >= 128 for c in name):
+        return "non-ascii"
+    if re.fullmatch(r"[A-Za-z_][A-Za-z0-9_]*", name):
+        return "upper-case" if name != name.lower() else "identifier"
+    if "-" in name and "." in name:
+        return "hyphen-and-dot"
+    if "-" in name:
+        return "hyphen"
+    if "." in name:
+        return "dot"
+    return "other-non-identifier"
+
+
+def state_entries(enc):
+    if not enc.startswith("E:"):
+        return []
+    return [(unhex(e.split("=")[0]), None if e.split("=")[1] == "-" else unhex(e.split("=")[1])) for e in enc[2:].split(",")]
+
+
+def state_has_clause(enc):
+    """a Go file of the directory parses: NameForDir reads the name instead of deriving it"""
+    return any(c is not None and n.lower().endswith(".go") for n, c in state_entries(enc))
+
+
+def state_class(enc):
+    if enc == "U":
+        return "absent"
+    es = state_entries(enc)
+    if not es:
+        return "empty"
+    if state_has_clause(enc):
+        return "go-files"
+    if any(n.lower().endswith(".go") for n, _ in es):
+        return "unparsable-go-files-only"
+    return "non-go-files-only"
+
+
+def describe_state(enc):
+    c = state_class(enc)
+    if c == "absent":
+        return "does not exist yet"
+    if c == "empty":
+        return "exists and is empty"
+    return "exists and holds " + ", ".join(n + (" (package %s)" % cl if cl else "") for n, cl in state_entries(enc))
+
+
+def run_pkgnames(ctx, have_model, branch, nontriv):
+    rc, so, se = ctx.harness("c17", ["-mode", "pkgnames", "-tier", ctx.tier, "-seed", ctx.seed])
+    if rc != 0:
+        raise RuntimeError("harness pkgnames failed: " + se[-2000:])
+    rows = [l.split("\t") for l in so.split("\n") if l.startswith("k\t")]
+    stats = {"cases": len(rows), "divergences": 0, "spec_failures": 0, "by_name_class_and_state": Counter()}
+    if not have_model:
+        ctx.cov["derived_package_names"] = stats
+        return rows
+    model = ctx.driver("c17", ["secpkg %s - %s %s" % (r[1], r[3], r[4]) for r in rows])
+    spec = ctx.driver("c17", ["chkpkg " + (r[5] if re.fullmatch(r"[0-9a-f]+|-", r[5]) else "-") for r in rows])
+    reported = set()
+    for r, m, v in zip(rows, model, spec):
+        name = unhex(r[3])
+        nc, sc = name_class(name), state_class(r[4])
+        branch["pkgname:%s:%s" % (nc, sc)] += 1
+        stats["by_name_class_and_state"]["%s/%s" % (nc, sc)] += 1
+        if nc != "identifier":
+            nontriv.add("k%s/%s/%s" % (r[3], sc, r[1]))
+        derived = not state_has_clause(r[4])
+        cfgtxt = {"exec": "exec: {%s}" % ("filename: %s/generated.go" % name if r[2] == "single-file" else "layout: follow-schema, dir: %s" % name),
+                  "model": "model: {filename: %s/models_gen.go}" % name,
+                  "resolver": "resolver: {%s}" % ("filename: %s/resolver.go" % name if r[2] == "single-file" else "layout: follow-schema, dir: %s" % name)}[r[1]]
+        desc = "gqlgen.yml `%s` with `package:` omitted, directory %r %s: (*%s).Check() leaves Package = %r" % (
+            cfgtxt, name, describe_state(r[4]), {"exec": "ExecConfig", "model": "PackageConfig", "resolver": "ResolverConfig"}[r[1]],
+            unhex(r[5]) if re.fullmatch(r"[0-9a-f]+|-", r[5]) else r[5])
+        if derived and v != "ok":
+            # Spec on the implementation's own output: a derived name must be able to stand in a package clause
+            stats["spec_failures"] += 1
+            key = (nc, sc)
+            if key in reported or len(reported) >= 4:
+                continue
+            reported.add(key)
+            ctx.violation({"kind": "spec", "what": "derived package name", "section": r[1], "layout": r[2], "directory_name": name,
+                           "directory_state": describe_state(r[4]), "derived": unhex(r[5]) if re.fullmatch(r"[0-9a-f]+|-", r[5]) else r[5], "verdict": v,
+                           "shape": {"stage": "derived-package-name", "class": "derived-name-is-not-a-package-name", "name_class": nc, "directory_state": sc},
+                           "replay": desc + ", which is not a valid Go package name: every generated file of the section starts with `package %s` and generation fails (go/harness/c17 -mode pkgnames)" % (unhex(r[5]) if re.fullmatch(r"[0-9a-f]+|-", r[5]) else r[5])})
+        elif m != r[5]:
+            stats["divergences"] += 1
+            if stats["divergences"] <= 4:
+                ctx.violation({"kind": "correspondence", "what": "derived package name", "case": r, "model": m,
+                               "replay": desc + "; Model/PkgName.lean over Gen/PkgNameRules.lean says %r" % unhex(m)}, no_failing_input=True)
+    stats["by_name_class_and_state"] = dict(stats["by_name_class_and_state"])
+    ctx.cov["derived_package_names"] = stats
+    return rows
+
+
+def read_layout(d):
+    """layout.tsv of a c17l project -> (meta dict, [section rows: role, dir, configured hex|-, base hex, state enc, state, name class])"""
+    meta, secs = {}, []
+    for l in read(os.path.join(d, "layout.tsv")).split("\n"):
+        f = l.split("\t")
+        if f[0] == "section" and len(f) >= 8:
+            secs.append(f[1:8])
+        elif len(f) == 2:
+            meta[f[0]] = f[1]
+    return meta, secs
+
+
+def layout_shape(d):
+    meta, secs = read_layout(d)
+    return {"exec_layout": meta.get("exec_layout"), "resolver_layout": meta.get("resolver_layout"),
+            "sections": ["%s:%s:%s:%s" % (r[0], r[6], state_class(r[4]), "package-omitted" if r[2] == "-" else "package-given") for r in secs]}
+
+
 def run_sweep(ctx, have_model, branch, nontriv):
     n = 24 if ctx.tier == "quick" else 160
     root = os.path.join(vf.GO, "genout", "c17")
@@ -353,7 +516,8 @@ def run_sweep(ctx, have_model, branch, nontriv):
     os.makedirs(root)
     rc, so, se = ctx.harness("c17", ["-mode", "schemas", "-out", root, "-n", n, "-seed", ctx.seed, "-tier", ctx.tier,
                                      "-bindings", "-corpus", os.path.join(vf.VERIF, "corpus", "C17", "bindings.txt"),
-                                     "-rootrefs", "-rootcorpus", os.path.join(vf.VERIF, "corpus", "C17", "rootrefs.txt")])
+                                     "-rootrefs", "-rootcorpus", os.path.join(vf.VERIF, "corpus", "C17", "rootrefs.txt"),
+                                     "-layouts", "-layoutcorpus", os.path.join(vf.VERIF, "corpus", "C17", "layouts.txt")])
     if rc != 0:
         raise RuntimeError("harness schemas failed: " + se[-2000:])
     projects = [l.split("\t")[1] for l in so.split("\n") if l.startswith("project\t")]
@@ -427,7 +591,7 @@ def run_sweep(ctx, have_model, branch, nontriv):
 
     decl_out = {}
     with ThreadPoolExecutor(max_workers=8) as ex:
-        for p, (rc, so, se) in ex.map(decls, [p for p in ok if p not in build_fail and not p.endswith("ab") and not p.startswith("c17b")]):
+        for p, (rc, so, se) in ex.map(decls, [p for p in ok if p not in build_fail and not p.endswith("ab") and not p.startswith("c17b") and not p.startswith("c17l")]):
             if rc != 0:
                 raise RuntimeError("harness decls failed for %s: %s" % (p, (so + se)[-1500:]))
             d = dict(l.split("\t", 1) for l in so.split("\n") if "\t" in l)
@@ -467,6 +631,8 @@ def run_sweep(ctx, have_model, branch, nontriv):
 
     binding = run_bindings(ctx, have_model, root, [p for p in ok if p.startswith("c17b") and p not in build_fail], hbin, branch, nontriv)
 
+    layouts = run_layout_clauses(ctx, have_model, root, [p for p in ok if p.startswith("c17l") and p not in build_fail])
+
     classes = Counter()
     samples = []
     failed_inputs = []
@@ -474,7 +640,7 @@ def run_sweep(ctx, have_model, branch, nontriv):
     rootref_shapes = Counter()
     for p in projects:
         rc, se = results[p]
-        branch["sweep:" + ("directed" if p.startswith("c17d") else "bindings" if p.startswith("c17b") else "root-typed-fields" if p.startswith("c17t")
+        branch["sweep:" + ("directed" if p.startswith("c17d") else "bindings" if p.startswith("c17b") else "root-typed-fields" if p.startswith("c17t") else "layout" if p.startswith("c17l")
                            else "autobind-no-models" if p.endswith("ab") else "random")] += 1
         nontriv.add("p" + p)
         yml_p = read(os.path.join(root, p, "gqlgen.yml"))
@@ -496,14 +662,51 @@ def run_sweep(ctx, have_model, branch, nontriv):
         if rc == 0:
             rc, se = 6, "\n".join(build_fail[p])
         shape, head = classify(os.path.join(root, p), rc, se)
-        classes[shape.get("class", "?")] += 1
         d = os.path.join(root, p)
         files = {f: read(os.path.join(d, f)) for f in sorted(os.listdir(d)) if f.endswith(".graphql") or f == "gqlgen.yml"}
         if p.startswith("c17t"):
             files["rootshapes.tsv"] = read(os.path.join(d, "rootshapes.tsv"))
+        if p.startswith("c17l"):
+            # the project is more than its root: schema files and pre-existing Go files live in the output directories
+            files = {}
+            for dp, dns, fns in os.walk(d):
+                for fn in sorted(fns):
+                    rel = os.path.relpath(os.path.join(dp, fn), d)
+                    if fn.endswith(".graphql") or fn in ("gqlgen.yml", "README.md", "doc.go", "layout.tsv"):
+                        files[rel] = read(os.path.join(dp, fn))
+            _, lsecs = read_layout(d)
+            files["directories-before-generation"] = "; ".join("%s %s/ %s, package %s" % (r[0], r[1], describe_state(r[4]), "omitted" if r[2] == "-" else unhex(r[2])) for r in lsecs)
+            shape["layout"] = layout_shape(d)
+            # a generated file whose package clause is not a package name: the derivation of the name is what failed
+            for r in lsecs:
+                sd = os.path.join(d, r[1])
+                for fn in sorted(os.listdir(sd)) if os.path.isdir(sd) else []:
+                    m = re.search(r"^package[ \t]+([^\n]*)", read(os.path.join(sd, fn)), re.M) if fn.endswith(".go") else None
+                    if m and (not re.fullmatch(r"[A-Za-z_][A-Za-z0-9_]*", m.group(1).strip()) or m.group(1).strip() in GO_KW or m.group(1).strip() == "_"):
+                        shape.update({"class": "generated-file-with-invalid-package-clause", "section": r[0], "name_class": r[6],
+                                      "directory_state": state_class(r[4]), "package_omitted": r[2] == "-"})
+                        shape.pop("message", None)
+                        head = "%s/%s starts with `package %s` (%s directory %r %s, `package:` %s): %s" % (
+                            r[1], fn, m.group(1).strip(), r[0], r[1], describe_state(r[4]), "omitted" if r[2] == "-" else "given", head)
+                        break
+                if shape.get("class") == "generated-file-with-invalid-package-clause":
+                    break
+            ex = next((r for r in lsecs if r[0] == "exec"), None)
+            rs = next((r for r in lsecs if r[0] == "resolver"), None)
+            if ex and rs and rc in (3, 6) and re.search(r'"[^"]+" imported as \w+ and not used|undefined: \w+', "\n".join(first_errors(se)[:40])):
+                given = unhex(ex[2]) if ex[2] != "-" else ""
+                base = unhex(ex[3])
+                if given and given != base and re.fullmatch(r"[A-Za-z_][A-Za-z0-9_]*", base) and base not in GO_KW:
+                    shape.update({"class": "resolver-names-unwritten-exec-package-by-directory",
+                                  "exec_package_given_differs_from_directory_name": True,
+                                  "exec_directory_name_is_identifier": True,
+                                  "exec_directory_has_go_files": state_class(ex[4]) == "go-files",
+                                  "resolver_outside_exec_package": rs[1] != ex[1]})
+                    shape.pop("message", None)
         if p.startswith("c17b"):
             files["ext/ext.go"] = "go/harness/c17/bindext.go.txt (hand-written user package: Marshal/Unmarshal function pairs and MarshalGQL types)"
             files["shapes.tsv"] = read(os.path.join(d, "shapes.tsv"))
+        classes[shape.get("class", "?")] += 1
         rep = {"kind": "generation", "project": p, "rc": rc, "first_error": head[:600], "errors": first_errors(se)[:12],
                "shape": shape, "input": files,
                "replay": "write the files of `input` into a directory under /verif/go/genout/, run `.cache/h_c17 -mode gen -dir <dir>` (api.Generate + stubgen from /repo): %s" % head[:300]}
@@ -514,10 +717,48 @@ def run_sweep(ctx, have_model, branch, nontriv):
     return {"projects": len(projects), "random": len([p for p in projects if p.startswith("c17r")]),
             "generated_and_typechecked": classes["ok"], "outcome_classes": dict(classes),
             "declared_identifier_comparisons": emit_cmp, "declared_identifiers_compared": emit_idents,
-            "failure_samples": samples, "bindings": binding, "failed_inputs": failed_inputs,
+            "failure_samples": samples, "bindings": binding, "layouts": layouts, "failed_inputs": failed_inputs,
             "root_typed_fields": dict(rootref, distinct_shapes_method_syntax=len([1 for (sh, f) in rootref_shapes if not f]),
                                       distinct_shapes_function_syntax=len([1 for (sh, f) in rootref_shapes if f])),
             "note": "sampled support for the first sentence of C17, not proof"}
+
+
+def run_layout_clauses(ctx, have_model, root, projs):
+    """Layout projects that generated and built: the package clause of every Go file in each section's directory is
+    what Model/PkgName.lean says Check() leaves in the section's Package (configured, read from Go files already
+    there, or derived from the directory name), and is a valid package name."""
+    stats = {"projects": len(projs), "sections": 0, "files": 0, "divergences": 0, "cells": Counter()}
+    jobs = []
+    for p in projs:
+        d = os.path.join(root, p)
+        _, secs = read_layout(d)
+        for r in secs:
+            sd = os.path.join(d, r[1])
+            clauses = {}
+            for fn in sorted(os.listdir(sd)) if os.path.isdir(sd) else []:
+                if fn.endswith(".go"):
+                    m = re.search(r"^package\s+(\S+)", read(os.path.join(sd, fn)), re.M)
+                    clauses[fn] = m.group(1) if m else "?"
+            jobs.append((p, r, clauses))
+            stats["cells"]["%s/%s/%s/%s" % (r[0], r[6], state_class(r[4]), "omitted" if r[2] == "-" else "given")] += 1
+    if have_model and jobs:
+        want = ctx.driver("c17", ["secpkg %s %s %s %s" % (r[0], r[2], r[3], r[4]) for _, r, _ in jobs])
+        for (p, r, clauses), w in zip(jobs, want):
+            stats["sections"] += 1
+            stats["files"] += len(clauses)
+            w = unhex(w)
+            wrong = {f: c for f, c in clauses.items() if c != w}
+            if wrong or not clauses:
+                stats["divergences"] += 1
+                if stats["divergences"] <= 3:
+                    ctx.violation({"kind": "correspondence", "what": "package clause of generated files", "project": p, "section": r[0], "dir": r[1],
+                                   "model": w, "files": clauses,
+                                   "replay": "layout project %s (go/genout/c17/%s): %s directory %s/ (%s, package %s): generated files carry %s, Model/PkgName.lean says %r" % (
+                                       p, p, r[0], r[1], describe_state(r[4]), "omitted" if r[2] == "-" else unhex(r[2]), wrong or "no Go file", w)},
+                                  no_failing_input=True)
+    stats["cells"] = dict(stats["cells"])
+    stats["distinct_cells_section_nameclass_state_package"] = len(stats["cells"])
+    return stats
 
 
 def run_bindings(ctx, have_model, root, projs, hbin, branch, nontriv):
